@@ -207,6 +207,12 @@ def run_replay(path, repo=None):
 
 # ---------------------------------------------------------------------- known findings
 
+def _same_inputs(a, b):
+    if not isinstance(a, dict) or not isinstance(b, dict) or set(a) != set(b):
+        return False
+    return all(a[k] == b[k] for k in a)
+
+
 def load_known():
     p = os.path.join(HERE, 'known_findings.json')
     if not os.path.exists(p):
@@ -416,13 +422,25 @@ def main(argv=None):
             # are proved over the reals are rounding effects and are reported, not violations
             bo = set(c.ident() for c in contracts if c.params.get('_bounded_only'))
             seen_b = set()
+
+            def _known_for(key, f):
+                for k in known.get('findings', []):
+                    if k['property'] == prop and k['obligation'] == '%s/%s' % key:
+                        # a finding recorded with "match": "inputs" covers exactly its recorded input:
+                        # any other failing input of the same clause is a new violation
+                        if k.get('match') == 'inputs' and not _same_inputs(k.get('inputs'), f.get('inputs')):
+                            continue
+                        return k
+                return None
             for f in bounded['failures']:
                 if f['contract'] not in bo:
                     continue
                 key = (f['contract'], f['clause'])
-                if key in seen_b:
+                kf0 = _known_for(key, f)
+                skey = key + (('known', id(kf0)) if kf0 is not None else ('new',))
+                if skey in seen_b:
                     continue
-                seen_b.add(key)
+                seen_b.add(skey)
                 d = os.path.join(OUT, 'replay', prop)
                 os.makedirs(d, exist_ok=True)
                 ctb = [c for c in contracts if c.ident() == f['contract']][0]
@@ -433,10 +451,7 @@ def main(argv=None):
                                'target': ctb.target, 'inputs': f['inputs'], 'solver': 'bounded stand-in (concrete evaluation on the real code)',
                                'repo': a.repo, 'replay_result': {'reproduced': True, 'failed_clauses': f['failed'], 'exception': f['exception']}},
                               fh, indent=1, default=str)
-                kf = None
-                for k in known.get('findings', []):
-                    if k['property'] == prop and k['obligation'] == '%s/%s' % key:
-                        kf = k
+                kf = kf0
                 if kf is not None:
                     known_hits.append({'finding': kf, 'obligation': '%s/%s' % key, 'replay': path, 'reproduced': True})
                 else:
